@@ -290,3 +290,74 @@ Proof.
   intros e stops accepts prefix meth path Ha Hin Hno. apply exempt_iff.
   exact (bypass_only_if_exempt_gen exempt_pexp middleware_list e stops accepts prefix meth path Ha Hin Hno).
 Qed.
+
+(* ------------------------------------------------------------------ *)
+(** * the composed authenticator (PKCE cookie member)                  *)
+(* ------------------------------------------------------------------ *)
+
+(* every question the composed authenticator asks is about THIS request: the Authorization value is the request's own
+   header or "Bearer <its cookie>", and the rest of the request / the moment is passed through unchanged *)
+Definition member_presentations (ms : list member) (c : creds) : list (option (list N)) :=
+  flat_map (fun m => match member_presentation m c with Some a => [a] | None => [] end) ms.
+Definition presentations (pkce : bool) (c : creds) : list (option (list N)) :=
+  member_presentations (authenticator_members pkce) c.
+
+Lemma chain_calls_sound : forall (R : Type) (cb : callback R) c rest ms a v,
+  In (a, v) (chain_calls cb c rest ms) -> In a (member_presentations ms c) /\ v = cb a rest.
+Proof.
+  intros R cb c rest ms. induction ms as [| m r IH]; intros a v H; [contradiction |].
+  cbn [chain_calls] in H. unfold member_presentations in *. cbn [flat_map].
+  destruct (member_presentation m c) as [a' |].
+  - destruct H as [H | H].
+    + inversion H; subst. split; [left; reflexivity | reflexivity].
+    + destruct (cb a' rest); try contradiction.
+      destruct (IH a v H) as [H1 H2]. split; [right; exact H1 | exact H2].
+  - cbn [app]. apply IH. exact H.
+Qed.
+
+Lemma auth_calls_sound : forall (R : Type) pkce (cb : callback R) c rest a v,
+  In (a, v) (auth_calls pkce cb c rest) -> In a (presentations pkce c) /\ v = cb a rest.
+Proof. intros R pkce cb c rest a v H. exact (chain_calls_sound R cb c rest _ a v H). Qed.
+
+Lemma composed_accepts_fresh : forall (R : Type) pkce (cb : callback R) c rest,
+  composed_accepts pkce cb c rest = true ->
+  exists a, In a (presentations pkce c) /\ cb a rest = VAccept.
+Proof.
+  intros R pkce cb c rest H. unfold composed_accepts in H. apply existsb_exists in H.
+  destruct H as ([a v] & Hin & Hv). cbn [snd] in Hv.
+  destruct (auth_calls_sound R pkce cb c rest a v Hin) as [Hp Hveq].
+  exists a. split; [exact Hp |]. rewrite <- Hveq. destruct v; try discriminate Hv. reflexivity.
+Qed.
+
+(* at most one question per member *)
+Lemma chain_calls_length : forall (R : Type) (cb : callback R) c rest ms,
+  (length (chain_calls cb c rest ms) <= length ms)%nat.
+Proof.
+  intros R cb c rest ms. induction ms as [| m r IH]; [apply le_n |].
+  cbn [chain_calls length]. destruct (member_presentation m c) as [a |].
+  - cbn [length]. destruct (cb a rest); cbn [length]; lia.
+  - lia.
+Qed.
+
+Lemma dispatch_needs_fresh_verdict : forall (R : Type) e stops (cb : callback R) c rest prefix meth path,
+  e AAuth = true -> ~ allowed e prefix meth path ->
+  In EvDispatch (handle_cb e stops cb c rest prefix meth path) ->
+  exists a, In a (presentations (pkce_on e) c) /\ cb a rest = VAccept.
+Proof.
+  intros R e stops cb c rest prefix meth path Ha Hna Hin. unfold handle_cb in Hin.
+  destruct (dispatch_after_accept e stops _ prefix meth path Ha Hna Hin) as [Hacc _].
+  apply composed_accepts_fresh. exact Hacc.
+Qed.
+
+(* a history: every step brings its own callback state; the decision of a step never depends on another step *)
+Definition step (R : Type) : Type := (callback R * creds * R * list N * list N)%type.
+Lemma history_fresh_verdict : forall (R : Type) e stops prefix (h : list (step R)),
+  e AAuth = true ->
+  Forall (fun s => let '(cb, c, rest, meth, path) := s in
+                   ~ allowed e prefix meth path ->
+                   In EvDispatch (handle_cb e stops cb c rest prefix meth path) ->
+                   exists a, In a (presentations (pkce_on e) c) /\ cb a rest = VAccept) h.
+Proof.
+  intros R e stops prefix h Ha. apply Forall_forall. intros [[[[cb c] rest] meth] path] _ Hna Hin.
+  exact (dispatch_needs_fresh_verdict R e stops cb c rest prefix meth path Ha Hna Hin).
+Qed.
